@@ -31,8 +31,12 @@ CLAIMED = {
     'C05': ('4/C05', 'symbolic execution of FluxBinner/SimpleBinner/NativeBinner on symbolic grids + z3 (overlap-weighted-mean identity per path)'),
 }
 NA = {
+    'C15': ('solver-based checking does not apply: every clause is over a finite keyword->class / key->argument table, over text consumed by '
+            'configobj, C-level float() and inspect (where symbolic strings are realised), or over a whole-program CLI run writing HDF5; there '
+            'is no numeric or structural input domain for a solver to quantify over, and the only executable check would be concrete '
+            'enumeration of keywords and CLI runs (a different technique). See DESIGN.md section 5.'),
 }
-DEFAULT_NA = 'check not built yet in this session (planned in DESIGN.md section 4)'
+DEFAULT_NA = 'not claimed (see DESIGN.md section 5)'
 props = [json.loads(l) for l in open(os.path.join(V, 'properties.jsonl'))]
 checks, na = [], []
 for p in props:
